@@ -1445,6 +1445,13 @@ class DiskRefsContainer(RefsContainer):
                 if orig_ref != old_ref:
                     return False
 
+            # Remove the packed entry before the loose file. While the
+            # loose file is still there it hides the packed value, so
+            # readers go straight from the current value to "absent"; the
+            # other way round an older packed value would show through in
+            # between (and stay, if rewriting packed-refs fails).
+            self._remove_packed_ref(name)
+
             # remove the reference file itself
             try:
                 found = os.path.lexists(filename)
@@ -1455,7 +1462,6 @@ class DiskRefsContainer(RefsContainer):
             if found:
                 os.remove(filename)
 
-            self._remove_packed_ref(name)
             self._log(
                 name,
                 old_ref,
